@@ -141,6 +141,14 @@ claim('C18', 'guard-form / provenance / option-plumbing rules and bounded intege
       'with lhs = int(idx), rhs = ceil(idx); interp_like accumulates by name; Dataset.interp_axis passes the requested axis. Numerical agreement with numpy.interp is not decided.',
       'Assumes numpy.interp semantics for increasing nodes.', 'DESIGN.md §3 C18')
 
+claim('C19', 'writer/reader table agreement (JSON), metadata-channel rule, interprocedural effect analysis of the writers, symmetric-update rule for the three metadata levels',
+      'Decides only the clauses of C19 that are visible in the code: the JSON writer and reader agree key by key and role by role, metadata values are read from the attrs '
+      'dictionary into a fresh dict and restored after construction (never through constructor keywords), the reader path is valid under the pinned NumPy; to_json, '
+      'to_jsondict, DimArray.write_nc and Dataset.write_nc mutate none of their operands; dataset, variable and axis metadata each have a write-side and a read-side '
+      'attrs.update in io/nc.py. NOT decided: everything that depends on the netCDF4 library (absent from the sandbox) - dtype mapping, string encoding, mode=a, NETCDF3 '
+      'down-casting, dimension order on disk.',
+      'Assumes json.dumps/loads and ndarray.tolist semantics; netCDF4 calls are external and assumed not to write their Python arguments.', 'DESIGN.md §3 C19')
+
 UNDER_CONSTRUCTION = 'checker under construction in this session (claimed in DESIGN.md, not yet registered)'
 for pid in ['C01', 'C03', 'C04', 'C05', 'C06', 'C07', 'C08', 'C09', 'C10', 'C11', 'C12', 'C13', 'C14', 'C15', 'C16',
             'C17', 'C18', 'C19']:
